@@ -156,6 +156,9 @@ class Ctx:
         out = proto.run_impl(line, extra)
         self.lines.append(line)
         self.impl.append(out)
+        if " ARGUMENT-MODIFIED:" in out:
+            out, which = out.split(" ARGUMENT-MODIFIED:")
+            self.fail("the call modifies its argument (%s)" % which, line=line)
         return out
 
     def case(self, key, nontrivial, *classes):
